@@ -135,6 +135,9 @@ def worker(mod, tier, seed, shard, nshards, outpath):
         spec = mod.gen(rng, idx, tier, seed)
         if spec is None:
             continue
+        if getattr(mod, 'CRASH_ATTRIBUTION', False):
+            with open(outpath + '.cur', 'w') as cf:
+                cf.write(str(idx))
         res, cls = run_one(mod, spec, known)
         agg['cases'] += 1
         agg['evaluations'] += res.evals
@@ -345,6 +348,27 @@ def main(argv=None):
         if rc != 0 or not os.path.exists(out):
             tail = open(log.name, 'rb').read()[-1500:].decode('utf8',
                                                               'replace')
+            if rc is not None and os.path.exists(out + '.cur'):
+                # the process died inside the library/C code while running a
+                # known case: that is an observed outcome, not a lost run
+                cidx = int(open(out + '.cur').read().strip())
+                cspec = mod.gen(case_rng(seed, prop, cidx), cidx, a.tier,
+                                seed)
+                v = {'kind': 'process-crash', 'msg': 'worker died (exit %s) '
+                     'while running case %d:\n%s' % (rc, cidx, tail)}
+                fid = findings.classify(prop, v, cspec, findings.load_known())
+                part = merge([])
+                part['digests'] = []
+                if fid is None:
+                    part['violations'] = [{'idx': cidx, 'spec': cspec,
+                                           'violation': v}]
+                    part['viol_counts'] = {'process-crash': 1}
+                else:
+                    part['known'] = {fid: 1}
+                part['notes'] = {'inconclusive:worker-%d-died-rest-of-shard-'
+                                 'not-run' % k: 1}
+                parts.append(part)
+                continue
             crashed.append('worker-%d-%s: %s' % (
                 k, 'timeout' if rc is None else 'exit%s' % rc, tail))
             continue
